@@ -104,12 +104,28 @@ def close_readahead_fault_cases(rng, tier):
                     ["write-fault", "write-fault-aborted-kind" if fault == W_ERR_AB else "write-fault-plain", "close-readahead-fault"]
 
 
+def swallowed_flush_error_cases(rng, tier):
+    """a read fails because the flush of a management reply failed (write error or zero-length write, possibly after part of the
+    reply went out); the handler does NOT propagate it and then writes through a StreamWriter (known finding F5)"""
+    for fault in (W_ERR, W_ZERO):
+        for pre in ([], [3], [1, 0]):
+            for then in (("write", STDOUT, [104, 105]), ("flush", STDOUT)):
+                rid = 1
+                recs = minimal_preamble(rid, 1, flags=rng.choice([0, 1])) + [record(GETVALUES, 0, nv(list(b"FCGI_MAX_CONNS"), []), 0),
+                                                                            record(STDIN, rid, [97, 98, 99], 0), record(STDIN, rid, [], 0)]
+                scripts = [[("read", 16), ("read", 16), then, ("ret", 0, 0)]]
+                ws = pre + [fault] + [10 ** 6] * 10
+                yield conn_case(rng.choice([64, 8192]), 1, [(0, 0, flat(recs))], scripts, [], ws, rng.choice([0, 1])), \
+                    ["write-fault", "write-fault-plain", "swallowed-flush-error-then-write"]
+
+
 _gen_cases_c12 = gen_cases
 
 
 def gen_cases(rng, tier):
     yield from _gen_cases_c12(rng, tier)
     yield from close_readahead_fault_cases(rng, tier)
+    yield from swallowed_flush_error_cases(rng, tier)
 
 
 def nontrivial(line, tags):
@@ -117,7 +133,7 @@ def nontrivial(line, tags):
 
 
 def min_classes(tier):
-    return {"eof": 2000, "read-error": 300, "write-fault": 300, "write-fault-aborted-kind": 60, "close-readahead-fault": 16}
+    return {"eof": 2000, "read-error": 300, "write-fault": 300, "write-fault-aborted-kind": 60, "close-readahead-fault": 16, "swallowed-flush-error-then-write": 12}
 
 
 def outcome(line, out):
@@ -125,6 +141,24 @@ def outcome(line, out):
     if o is None:
         return "crash"
     return {0: "returned", 1: "deadlock", 18446744073710440504: "panic"}.get(o[0][0], "other")
+
+
+def signature(line, impl_line):
+    """classifies a non-terminating run for known-finding matching"""
+    o = parse_out(impl_line)
+    if o is None or not o or o[0][:1] != [1]:
+        return ""
+    cfg, rscript, wscript, segs, scripts = C07.decode_case(line)
+    head, cons, wlog, inv, shut = C07.parse_events(o)
+    if inv and scripts:
+        hops = C07.handler_ops(scripts[min(len(inv) - 1, len(scripts) - 1)])
+        evs = inv[-1]["ops"]
+        if evs and len(evs) < len(hops) and hops[len(evs)][0] in ("write", "flush"):
+            ev = evs[-1][0]
+            failed = (ev[0] in (1, 3) and ev[1] == 0 and ev[2] in (6, 7)) or (ev[0] == 2 and ev[1] in (6, 7)) or (ev[0] == 5 and ev[1] in (6, 7))
+            if failed:
+                return "hang:handler-writes-after-failed-reply-flush"
+    return ""
 
 
 def oracle(line, impl_line):
